@@ -243,8 +243,20 @@ def _one(v):
     return next(iter(v)) if v is not TOP and v is not None and len(v) == 1 else None
 
 
+def _lit_ptr(p, i):
+    """address of byte i of the object p points to; for a string literal an address in an object named after its text"""
+    from qv.esp import ptr_add
+    if isinstance(p, tuple) and p[0] == 'str':
+        return p if i == 0 else ('&', 'LIT:%s[%d]' % (p[1].encode('latin-1', 'replace').hex(), i))
+    return ptr_add(p, i) or (p if i == 0 else None)
+
+
 def _cell(E, path):
     """one byte cell: the stored value, else the initialiser of a constant (or private, never written) table"""
+    if path.startswith('LIT:'):
+        bs = bytes.fromhex(path[4:path.index('[')]) + b'\0'
+        k = int(path[path.index('[') + 1:-1])
+        return ((bs[k] + 128) & 255) - 128 if 0 <= k < len(bs) else None
     b = _one(E.get(path))
     if b is None and (path[:2] in ('G:', 'S:') or '::SL:' in path) and '[' in path:
         b = _one(E.eng.const_table_cell(path))
@@ -421,10 +433,11 @@ class SAConc:
         from qv.esp import ptr_add
         p, c = _one(args[0]), _one(args[1])
         s_ = self.cstring(E, p)
-        if s_ is None or not isinstance(c, int) or not (isinstance(p, tuple) and p[0] == '&'):
+        if s_ is None or not isinstance(c, int) or not (isinstance(p, tuple) and p[0] in ('&', 'str')):
             return [Outcome(ret=TOP)]
         i = (s_ + b'\0').find(bytes([c & 255]))
-        return [Outcome(ret=fs(ptr_add(p, i)) if i >= 0 else fs(0))]
+        q = _lit_ptr(p, i) if i >= 0 else 0
+        return [Outcome(ret=fs(q) if q is not None else TOP)]
 
     def prim_memchr(self, E, x, args):
         from qv.esp import ptr_add
@@ -435,31 +448,31 @@ class SAConc:
         i = m.find(bytes([c & 255]))
         if i < 0:
             return [Outcome(ret=fs(0))]
-        q = ptr_add(p, i) or (p if i == 0 else None)
+        q = _lit_ptr(p, i)
         return [Outcome(ret=fs(q) if q is not None else TOP)]
 
     def prim_memrchr(self, E, x, args):
         from qv.esp import ptr_add
         p, c, n = _one(args[0]), _one(args[1]), _one(args[2])
         m = self.mem(E, p, n) if isinstance(n, int) and 0 <= n <= 4096 else None
-        if m is None or not isinstance(c, int) or not (isinstance(p, tuple) and p[0] == '&'):
+        if m is None or not isinstance(c, int) or not (isinstance(p, tuple) and p[0] in ('&', 'str')):
             return [Outcome(ret=TOP)]
         i = m.rfind(bytes([c & 255]))
         if i < 0:
             return [Outcome(ret=fs(0))]
-        q = ptr_add(p, i) or (p if i == 0 else None)
+        q = _lit_ptr(p, i)
         return [Outcome(ret=fs(q) if q is not None else TOP)]
 
     def prim_strrchr(self, E, x, args):
         from qv.esp import ptr_add
         p, c = _one(args[0]), _one(args[1])
         s_ = self.cstring(E, p)
-        if s_ is None or not isinstance(c, int) or not (isinstance(p, tuple) and p[0] == '&'):
+        if s_ is None or not isinstance(c, int) or not (isinstance(p, tuple) and p[0] in ('&', 'str')):
             return [Outcome(ret=TOP)]
         i = (s_ + b'\0').rfind(bytes([c & 255]))
         if i < 0:
             return [Outcome(ret=fs(0))]
-        q = ptr_add(p, i) or (p if i == 0 else None)
+        q = _lit_ptr(p, i)
         return [Outcome(ret=fs(q) if q is not None else TOP)]
 
     def _copy(self, E, dst, src, n):
